@@ -81,6 +81,14 @@ func searches(prop, tier string) []raftmc.Search {
 				add(c, "learner-added", d(7, 9))
 				c.PreVote, c.CheckQuorum = false, false
 				add(c, "learner-added", d(7, 9))
+				// a learner (or a voter) that compacted its log restarts from a snapshot whose membership lists the
+				// learner: the role must come back as it was persisted
+				lr := c
+				lr.Name = "learner-restart"
+				lr.MaxConf, lr.MaxCompact, lr.MaxCrash = 0, 1, 1
+				add(lr, "learner-added", d(6, 8))
+				lr.PreVote, lr.CheckQuorum = true, true
+				add(lr, "learner-added", d(6, 8))
 			}
 			c2 := raftmc.Config{Name: "conf2-" + sp, N: 2, Spare: sp, PreVote: true, CheckQuorum: true, Storage: "mem", UseTimeout: true, UseTick: true}
 			c2.MaxConf, c2.MaxCrash = 2, 1
@@ -222,6 +230,11 @@ func searches(prop, tier string) []raftmc.Search {
 				add(dn, "stale-long", d(8, 10))
 			}
 		}
+		// a vote granted as the only change of the hard state, then a restart: both candidates of the term
+		// ask the restarted voter; two proposals are enough to make two leaders commit different entries
+		vr := raftmc.Config{Name: "vote-survives-restart", N: 3, CheckQuorum: true, Storage: "mem"}
+		vr.MaxProp = 2
+		add(vr, "voted-then-restarted", d(12, 14))
 		n2 := raftmc.Config{Name: "crash-n2", N: 2, PreVote: true, CheckQuorum: true, Storage: "mem", UseTimeout: true, UseTick: true}
 		n2.MaxCrash, n2.MaxProp = 2, 1
 		n2.CrashModes = []int{raftmc.CrashP, raftmc.CrashL}
